@@ -33,6 +33,8 @@ class Analyzer(Interp):
         self._gcache = {}
         self.watch = None              # predicate(callee qname): log (fn, node, callee, arg values, state copy) at each such call
         self.calls = []
+        self.watch_index = None        # predicate(buffer id): log every index into such a buffer with the state at that point
+        self.index_log = []
         self._gbusy = set()
 
     # ---- sizes of objects whose address is taken ---------------------------------------------------------------
@@ -129,6 +131,15 @@ class Analyzer(Interp):
                         out.append((s, Struct({names[i]: v for i, v in enumerate(vals) if i < len(names)})))
                     return out
         return super().ev(fn, n, st, fr)
+
+    def index(self, fn, n, st, base, idx, t, what='index'):
+        if self.recording and self.watch_index is not None:
+            buf = getattr(base, 'buf', None)
+            if buf is not None and self.watch_index(buf):
+                off = getattr(base, 'off', 0)
+                self.index_log.append({'fn': fn, 'node': n, 'buf': buf, 'idx': (as_lin(off) + idx) if isinstance(idx, Lin) else None, 'state': st.copy(),
+                                       'stack': list(self.call_stack)})
+        return super().index(fn, n, st, base, idx, t, what)
 
     def arith(self, fn, n, st, op, a, b, t):
         r = super().arith(fn, n, st, op, a, b, t)
